@@ -474,7 +474,7 @@ def entryReplace (entryVars callVars : List (String × String)) (dflt : Option S
 /-! ### Text: `entry_as_str`, `as_str`, and reading it back -/
 
 /-- `textwrap` chunks for `break_on_hyphens=False`: maximal runs of blanks / of non-blanks, every
-blank already turned into a space (`replace_whitespace`; tabs are outside the model) -/
+blank already turned into a space by `munge` -/
 def chunks : List Char → List (List Char)
   | [] => []
   | c :: t =>
@@ -513,10 +513,23 @@ def wrapLines (w hang : Nat) : Nat → Bool → List (List Char) → List (List 
     if cur.isEmpty then wrapLines w hang n first rest
     else ((if first then [] else List.replicate hang ' ') ++ cur.flatten) :: wrapLines w hang n false rest
 
+/-- `str.expandtabs(8)`: a tab advances to the next multiple of eight columns; the column restarts
+after a line break -/
+def expandTabs : List Char → Nat → List Char
+  | [], _ => []
+  | c :: t, col =>
+    if c = '\t' then List.replicate (8 - col % 8) ' ' ++ expandTabs t (col + (8 - col % 8))
+    else if c = '\n' || c = '\r' then c :: expandTabs t 0
+    else c :: expandTabs t (col + 1)
+
+/-- `TextWrapper._munge_whitespace`: expand tabs, then turn each of `\t\n\x0b\x0c\r` and blank into a space -/
+def munge (text : List Char) : List Char :=
+  (expandTabs text 0).map (fun c => if 9 ≤ c.toNat ∧ c.toNat ≤ 13 then ' ' else c)
+
 /-- `console.fill(text, width=w, hanging=hang, break_long_words=False, break_on_hyphens=False)` as
 a list of lines -/
 def fill (w hang : Nat) (text : List Char) : List (List Char) :=
-  let cs := chunks text
+  let cs := chunks (munge text)
   wrapLines w hang (cs.length + 1) true cs
 
 def ljust (n : Nat) (s : List Char) : List Char := s ++ List.replicate (n - s.length) ' '
@@ -633,9 +646,10 @@ def readIniRaw (lower : Bool) (text : String) : Except IniErr (List (String × L
     | .ok p => readLine lower p l) (.ok ⟨[], none, none, 0⟩)
   r.map (fun p => p.closeSection.done)
 
-/-- `'\n'.join(lines).rstrip()` then, in `update_from_file`, `.replace("\n", " ")` -/
+/-- `'\n'.join(lines).rstrip()` then, in `update_from_file`, `.replace("\n", " ").strip()` (repaired:
+the blank a value starting on a continuation line would get is stripped) -/
 def joinValue (vs : List (List Char)) : String :=
-  String.ofList ((rstripBlanks (joinLines vs)).map (fun c => if c = '\n' then ' ' else c))
+  String.ofList (stripBlanks ((rstripBlanks (joinLines vs)).map (fun c => if c = '\n' then ' ' else c)))
 
 /-- the entry loop of `update_from_file` over the parsed file: the updates it issues, in order
 (`__replace__` substitution is outside the modelled subset) -/
